@@ -190,28 +190,12 @@ func JudgeC18(s *Step) *Verdict {
 	if s.Refused {
 		return nil
 	}
-	// (4) conflicting rename: only conservation
-	if s.Ex.Conflict {
-		before, after := map[string]int{}, map[string]int{}
-		for i := range s.Pre.Ents {
-			if !s.Pre.Ents[i].Dir {
-				before[contentSig(&s.Pre.Ents[i])]++
-			}
-		}
-		for i := range s.Post.Ents {
-			if !s.Post.Ents[i].Dir {
-				after[contentSig(&s.Post.Ents[i])]++
-			}
-		}
-		for k, n := range before {
-			if after[k] < n {
-				return &Verdict{"rename-lost-file:" + oc, fmt.Sprintf("%s: file with content %s existed %d times before and %d times after", s.Ev, k, n, after[k])}
-			}
-		}
-		for k, n := range after {
-			if before[k] < n {
-				return &Verdict{"rename-duplicated-file:" + oc, fmt.Sprintf("%s: file with content %s existed %d times before and %d times after", s.Ev, k, before[k], n)}
-			}
+	// (4) a rename that stopped half-way (a kind clash below the top, or any error after
+	// the first step): the statement does not say where it must stop, only that nothing is
+	// lost or duplicated
+	if s.Ex.Conflict || (s.Ev.Op == "mv" && s.Out.Err != "" && s.Ex.Moved != nil) {
+		if v := conservation(s, oc); v != nil {
+			return v
 		}
 		return nil // the model has adopted the observed tree
 	}
@@ -240,6 +224,56 @@ func JudgeC18(s *Step) *Verdict {
 		if contentSig(a) != contentSig(b) {
 			return &Verdict{"rename-changed-content:" + oc, fmt.Sprintf("%s: %s had %s, %s has %s", s.Ev, from, contentSig(a), to, contentSig(b))}
 		}
+	}
+	return nil
+}
+
+// conservation: after a partially executed rename P -> Q every file of the source
+// subtree still exists exactly once (at its old or at its new path), no content
+// exists more often than before, and files outside the source subtree are
+// untouched unless a moved file took their place below Q.
+func conservation(s *Step, oc string) *Verdict {
+	before, after := map[string]int{}, map[string]int{}
+	for i := range s.Pre.Ents {
+		if !s.Pre.Ents[i].Dir {
+			before[contentSig(&s.Pre.Ents[i])]++
+		}
+	}
+	for i := range s.Post.Ents {
+		if !s.Post.Ents[i].Dir {
+			after[contentSig(&s.Post.Ents[i])]++
+		}
+	}
+	for k, n := range after {
+		if before[k] < n {
+			return &Verdict{"rename-duplicated-file:" + oc, fmt.Sprintf("%s: file with content %s existed %d times before and %d times after", s.Ev, k, before[k], n)}
+		}
+	}
+	for i := range s.Pre.Ents {
+		e := &s.Pre.Ents[i]
+		if e.Dir {
+			continue
+		}
+		sig := contentSig(e)
+		if under(e.Path, s.Ev.P) {
+			to := s.Ev.Q + e.Path[len(s.Ev.P):]
+			a, b := s.Post.Get(e.Path), s.Post.Get(to)
+			if !(a != nil && !a.Dir && contentSig(a) == sig) && !(b != nil && !b.Dir && contentSig(b) == sig) {
+				return &Verdict{"rename-lost-file:" + oc, fmt.Sprintf("%s (err=%q): %s (content %s) is neither at its old path nor at %s", s.Ev, s.Out.Err, e.Path, sig, to)}
+			}
+			continue
+		}
+		now := s.Post.Get(e.Path)
+		if now != nil && !now.Dir && contentSig(now) == sig {
+			continue
+		}
+		if under(e.Path, s.Ev.Q) {
+			from := s.Pre.Get(s.Ev.P + e.Path[len(s.Ev.Q):])
+			if from != nil && !from.Dir && now != nil && !now.Dir && contentSig(now) == contentSig(from) {
+				continue // replaced by the moved file of the same name
+			}
+		}
+		return &Verdict{"rename-damaged-bystander:" + oc, fmt.Sprintf("%s (err=%q): %s (content %s) is outside the moved subtree and changed", s.Ev, s.Out.Err, e.Path, sig)}
 	}
 	return nil
 }
@@ -275,17 +309,35 @@ func JudgeC20(s *Step) (*Verdict, LeakStat) {
 	sort.Strings(fids)
 	for _, f := range fids {
 		if paths := refAfter[f]; len(paths) > 0 {
-			via := "by-another-entry"
-			if len(paths) == 1 && paths[0] == s.Ev.P || (s.Ev.Q != "" && len(paths) == 1 && paths[0] == s.Ev.Q) {
-				via = "by-the-written-entry"
-			}
-			for _, p := range paths {
-				if e := s.Post.Get(p); e != nil && e.Link != "" && p != s.Ev.P {
-					via = "by-hard-link-sibling"
+			// who shares the chunk, and does the filer know (one hard-link identity)?
+			links := map[string]bool{}
+			owners := map[string]bool{}
+			for _, p := range refBefore[f] {
+				owners[p] = true
+				if e := s.Pre.Get(p); e != nil {
+					links[e.Link] = true
 				}
 			}
-			return &Verdict{"referenced-chunk-scheduled:" + oc + ":" + via,
-				fmt.Sprintf("%s sent %s to the %s deletion sink while %v still reference(s) it", s.Ev, f, sched[f], paths)}, ls
+			for _, p := range paths {
+				owners[p] = true
+				if e := s.Post.Get(p); e != nil {
+					links[e.Link] = true
+				}
+			}
+			var class string
+			switch {
+			case len(links) == 1 && !links[""]:
+				class = "referenced-chunk-scheduled:" + oc + ":by-hard-link-sibling"
+			case len(owners) == 1:
+				class = "referenced-chunk-scheduled:" + oc + ":by-the-written-entry"
+			case len(links) > 1:
+				// entries that are not names of one identity share the chunk (a rename copied a
+				// hard-linked name without its link): any later collection on one side hits the other
+				class = "referenced-chunk-scheduled:chunk-shared-outside-a-hard-link:one-side-linked"
+			default:
+				class = "referenced-chunk-scheduled:chunk-shared-outside-a-hard-link:no-side-linked"
+			}
+			return &Verdict{class, fmt.Sprintf("%s sent %s to the %s deletion sink while %v still reference(s) it", s.Ev, f, sched[f], paths)}, ls
 		}
 	}
 	// clause 2: an explicit delete that asked for data deletion schedules everything it unreferenced
@@ -350,20 +402,20 @@ func JudgeC21(s *Step) *Verdict {
 		kv := s.Post.KV(linkHex(k))
 		if len(want) == 0 {
 			if kv != nil {
-				return &Verdict{"shared-record-outlives-last-name:" + oc, fmt.Sprintf("after %s no name of identity %d is left but its record exists (counter %d, chunks %v)", s.Ev, k, kv.Counter, kv.Chunks)}
+				return &Verdict{"link-counter-exceeds-live-names:" + oc, fmt.Sprintf("after %s no name of identity %d is left but its record exists (counter %d, chunks %v)", s.Ev, k, kv.Counter, kv.Chunks)}
 			}
 			continue
 		}
 		if kv == nil {
-			return &Verdict{"shared-record-missing:" + oc, fmt.Sprintf("after %s identity %d has names %v but no shared record", s.Ev, k, want)}
+			return &Verdict{"link-counter-below-live-names:" + oc, fmt.Sprintf("after %s identity %d has names %v but no shared record", s.Ev, k, want)}
 		}
 		first := s.Post.Get(want[0])
 		for _, n := range want {
 			e := s.Post.Get(n)
 			if int(e.Counter) != len(want) {
-				sym := "counter-too-high"
+				sym := "link-counter-exceeds-live-names"
 				if int(e.Counter) < len(want) {
-					sym = "counter-too-low"
+					sym = "link-counter-below-live-names"
 				}
 				return &Verdict{sym + ":" + oc, fmt.Sprintf("after %s identity %d has %d live name(s) %v but %s shows counter %d", s.Ev, k, len(want), want, n, e.Counter)}
 			}
